@@ -69,6 +69,8 @@ func (e *c19Env) keyPath(k string) string {
 		return e.otherKey
 	case "truncated":
 		return e.truncated
+	case "empty", "header4", "header8", "tailcut":
+		return e.keys + "." + k
 	case "converted":
 		return e.converted
 	}
@@ -131,6 +133,12 @@ func c19Body(c *ev.Ctx) {
 				data, _ := os.ReadFile(e.keys)
 				e.truncated = e.keys + ".cut"
 				os.WriteFile(e.truncated, data[:len(data)*2/3], 0o644)
+				// what an interrupted or still running setup leaves: nothing yet, the dimension header
+				// only (4 or 8 bytes), everything but the tail
+				os.WriteFile(e.keys+".empty", nil, 0o644)
+				os.WriteFile(e.keys+".header4", data[:4], 0o644)
+				os.WriteFile(e.keys+".header8", data[:8], 0o644)
+				os.WriteFile(e.keys+".tailcut", data[:len(data)-4096], 0o644)
 			}(e)
 		}
 		wg.Wait()
@@ -168,10 +176,13 @@ func c19Body(c *ev.Ctx) {
 		for _, mode := range []string{"insertion", "deletion"} {
 			e := envs[mode]
 			for _, mf := range []string{mode, e.otherModeName(), "bogus", ""} {
-				for _, k := range []string{"right", "other", "missing", "truncated"} {
+				for _, k := range []string{"right", "other", "missing", "truncated", "empty", "header4", "header8", "tailcut"} {
 					for _, pk := range []string{"own", "other", "garbage", "empty", "perturbed"} {
 						if (mf != mode || k != "right") && pk != "own" && pk != "other" {
 							continue // garbage/empty/perturbed parameters only with the right mode and keys
+						}
+						if c19PartialKeys[k] && (mf != mode || pk != "own") {
+							continue // partially written keys files only with the right mode and parameters
 						}
 						mf, k, pk := mf, k, pk
 						jobs = append(jobs, func() {
@@ -341,8 +352,14 @@ func c19Body(c *ev.Ctx) {
 				})
 			}
 			for _, mf := range []string{mode, e.otherModeName(), "bogus", ""} {
-				for _, k := range []string{"right", "other", "missing", "truncated"} {
+				for _, k := range []string{"right", "other", "missing", "truncated", "empty", "header4", "header8", "tailcut"} {
+					if c19PartialKeys[k] && mf != mode {
+						continue
+					}
 					add(mf, k, "emitted", "emitted")
+					if c19PartialKeys[k] {
+						add(mf, k, "plus1", "garbage") // nothing here can be right: must not exit 0
+					}
 				}
 			}
 			// valid re-randomisations of the emitted proof in which each coordinate in turn has
@@ -461,6 +478,9 @@ func c19Body(c *ev.Ctx) {
 		for _, e := range envs {
 			os.Remove(e.keys)
 			os.Remove(e.truncated)
+			for _, k := range []string{"empty", "header4", "header8", "tailcut"} {
+				os.Remove(e.keys + "." + k)
+			}
 			os.Remove(e.converted)
 		}
 	}
@@ -471,7 +491,7 @@ func c19Body(c *ev.Ctx) {
 	c.Set("valid_proofs_with_a_short_coordinate_fed_to_verify", shortVariants)
 	c.Set("verify_cells_invalid", verifyRejected)
 	c.Set("exhaustive", len(c.CapsHit()) == 0)
-	c.Set("rule", "cells of the decision table on the real binary: prove: (--mode flag in {right, other, bogus, absent}) x (keys in {right, other mode's, missing, truncated}) x (params in {own, other mode's}) + {garbage, empty, perturbed} params with right mode/keys; verify: the same (mode x keys) product with the emitted hash/proof + (hash in {emitted, +1, +r, decimal, with one/two leading zero digits, zz, absent}) x (proof in {emitted, 8 single-digit tamperings, {}, empty, garbage}); histories: convert-to-raw then prove/verify across both files, repeated gen>prove>verify, verify without proof, other system's proof, export-solidity; setup/gen-test-params/r1cs with unknown or missing mode. Oracle: exit 0 <=> an independently decoded proof verifies in-process for the hash mod r under the given keys; prove's stdout is exactly one JSON value + newline")
+	c.Set("rule", "cells of the decision table on the real binary: prove: (--mode flag in {right, other, bogus, absent}) x (keys in {right, other mode's, missing, cut at 2/3, empty, 4-byte header, 8-byte header, last 4 KiB missing}) x (params in {own, other mode's}) + {garbage, empty, perturbed} params with right mode/keys; verify: the same (mode x keys) product with the emitted hash/proof + (hash in {emitted, +1, +r, decimal, with one/two leading zero digits, zz, absent}) x (proof in {emitted, 8 single-digit tamperings, {}, empty, garbage}); histories: convert-to-raw then prove/verify across both files, repeated gen>prove>verify, verify without proof, other system's proof, export-solidity; setup/gen-test-params/r1cs with unknown or missing mode. Oracle: exit 0 <=> an independently decoded proof verifies in-process for the hash mod r under the given keys; prove's stdout is exactly one JSON value + newline")
 	c.Assume("stderr content is free; verify's exit status is judged by what the given keys accept, the --mode flag only has to be a known mode")
 }
 
@@ -481,6 +501,8 @@ func (e *c19Env) otherModeName() string {
 	}
 	return "insertion"
 }
+
+var c19PartialKeys = map[string]bool{"empty": true, "header4": true, "header8": true, "tailcut": true}
 
 func c19Why(mf, mode, k, pk string) string {
 	var w []string
